@@ -64,6 +64,8 @@ def account_s(draw):
         a += ":%d" % draw(st.integers(0, 99999))
     elif k == 3:
         a = a + "x" * (proto.ACCOUNTLEN - len(a) + draw(st.integers(-1, 2)))
+    elif k == 4:
+        a += ":%d:%d" % (draw(st.integers(1, 1700000000)), draw(st.integers(0, 99999)))     # full stamp: account:timestamp:id
     return a
 
 
